@@ -335,6 +335,39 @@ func c02Run(e *core.Env) {
 			}
 		}
 	}
+	// WIDE-EDGE block (round 12): operands whose coefficients together exceed one machine word, with the exact
+	// product's adjusted exponent placed one or two steps inside and outside MinExponent / MaxExponent and the
+	// precision at, just below and well above the product's digit count: exact-but-subnormal, exact-at-Emax and
+	// just-overflowing wide results through every binary operation of the property
+	{
+		wc := []*big.Int{bigOf("20000000000000"), bigOf("3000000000"), bigOf("99999999999"), bigOf("10000000000000000000"), pow2(64),
+			bigOf("123456789012345678901"), bigOf("31622776601683793320"), bigOf("5000000000000")}
+		n := int64(0)
+		for ia, a := range wc {
+			for ib, b := range wc {
+				n++
+				if !e.Mine(n) {
+					continue
+				}
+				x := FinBig(a, -60, ia%2 == 1)
+				y := FinBig(b, -63, ib%3 == 1)
+				nd := int32(len(new(big.Int).Mul(a, b).String()))
+				adj := -123 + nd - 1
+				e.State()
+				for _, p := range []uint32{uint32(nd) - 1, uint32(nd), uint32(nd) + 1, 60} {
+					for _, m := range []apd.Rounder{apd.RoundHalfEven, apd.RoundDown, apd.RoundCeiling} {
+						for dl := int32(-1); dl <= 2; dl++ {
+							for _, cc := range []CtxCase{MkCtx(p, adj+dl, adj+dl+200, m, 0), MkCtx(p, adj-dl-200, adj-dl, m, 0)} {
+								for _, op := range c02Binary {
+									do(op, x, &y, 0, cc)
+								}
+							}
+						}
+					}
+				}
+			}
+		}
+	}
 	// Sqrt on its own family, precisions 1..9 (and 16), wide and tight ranges
 	sf := sqrtFamily(e.Tier)
 	var sctx []CtxCase
